@@ -372,15 +372,20 @@ mod imp {
         .to_string();
         let fallible = term == "try_for_each" || term == "collect_result";
         // source: j items at once, one Pending (woken with everything else), the rest at once
+        // "budget" pattern (a quarter of the fallible runs): exactly a block of 32 / 64 in flight, the failure at the
+        // last position of a block of completions, at least two more items behind the source's Pending
+        let budget_run = fallible && n >= 34 && rng.chance(25);
+        let bj = if n >= 66 && rng.chance(30) { 64 } else { [32usize, 33][rng.below(2) as usize] };
+        let budget_bad = [bj - 1, bj, bj, bj + 1][rng.below(4) as usize];
         // (32 and 64 items in flight when the next one arrives: the slot map is exactly full)
-        let j = match rng.below(20) {
+        let j = if budget_run { bj } else { match rng.below(20) {
             0..=5 if n > 32 => 32,
             6..=7 if n > 64 => 64,
             8..=10 => n,
             11..=13 => n.saturating_sub(1),
             14..=16 => n.saturating_sub(2 + rng.below(3) as usize),
             _ => std::cmp::min(n, EDGES[rng.below(EDGES.len() as u64) as usize]),
-        };
+        } };
         let mut steps = vec![];
         for i in 0..n {
             if i == j {
@@ -396,7 +401,9 @@ mod imp {
         let nwork = n * 2 + 2;
         // at most one failure, at any position
         // (closure futures are created, woken and hence completed in index order: the k-th completion of the batch is child k)
-        let bad = if !fallible || rng.chance(25) {
+        let bad = if budget_run {
+            budget_bad
+        } else if !fallible || rng.chance(25) {
             0
         } else if rng.chance(20) {
             1 + rng.below(2) as usize
